@@ -316,7 +316,7 @@ Proof.
 Qed.
 
 (* Overlay: what top_w is handed, in its three modes *)
-Lemma overlay_fixed c maxcol maxrow pw ph fr l r t b :
+Lemma overlay_fixed c maxcol maxrow pw ph (fr : Z -> Z) l r t b :
   p_wt (o_pad c) = WPack ->
   overlay_padding_filler c maxcol maxrow pw ph fr = Ok (l, r, t, b) ->
   overlay_top_w_size c maxcol maxrow l r t b = [] /\
@@ -332,26 +332,28 @@ Proof.
   destruct (maxrow - t0 - b0 <? ph) eqn:E2; intros H; injection H as <- <- <- <-; repeat split; lia.
 Qed.
 
-Lemma overlay_flow c maxcol maxrow pw ph fr l r t b :
+Lemma overlay_flow c maxcol maxrow pw ph (fr : Z -> Z) l r t b :
   p_wt (o_pad c) <> WPack -> p_wt (o_pad c) <> WClip -> f_ht (o_fill c) = WPack ->
   overlay_padding_filler c maxcol maxrow pw ph fr = Ok (l, r, t, b) ->
   let W := clrp_width maxcol (p_wt (o_pad c)) (p_wa (o_pad c)) (p_minw (o_pad c)) (p_left (o_pad c)) (p_right (o_pad c)) in
   overlay_top_w_size c maxcol maxrow l r t b = [Z.min W maxcol] /\
-  0 <= l /\ 0 <= r /\ 0 <= t /\ t + fr + b = maxrow.
+  0 <= l /\ 0 <= r /\ 0 <= t /\
+  (* the rows are asked at the width top_w is rendered with, and margins + rows fill maxrow *)
+  t + fr (maxcol - l - r) + b = maxrow.
 Proof.
   intros Hw Hc Hh. unfold overlay_padding_filler, overlay_top_w_size. rewrite Hh.
   pose proof (clrp_child maxcol (p_at (o_pad c)) (p_aa (o_pad c)) (p_wt (o_pad c)) (p_wa (o_pad c)) (p_minw (o_pad c))
                 (p_left (o_pad c)) (p_right (o_pad c)) Hc) as Hx. cbv zeta in Hx.
   destruct (p_wt (o_pad c)) eqn:Ew; try congruence; cbn [andb];
   destruct (calculate_left_right_padding _ _ _ _ _ _ _ _) as [l0 r0];
-  pose proof (ctbf_child maxrow (f_vt (o_fill c)) (f_va (o_fill c)) WGiven fr None (f_top (o_fill c)) (f_bottom (o_fill c))) as Hy;
+  cbv zeta; remember (fr (maxcol - l0 - r0)) as h eqn:Eh;
+  pose proof (ctbf_child maxrow (f_vt (o_fill c)) (f_va (o_fill c)) WGiven h None (f_top (o_fill c)) (f_bottom (o_fill c))) as Hy;
   cbv zeta in Hy; unfold ctbf_height in Hy;
-  destruct (calculate_top_bottom_filler _ _ _ WGiven fr None _ _) as [t0 b0];
-  destruct (maxrow <? fr) eqn:E2; intros H; injection H as <- <- <- <-; cbv zeta;
+  destruct (calculate_top_bottom_filler _ _ _ WGiven h None _ _) as [t0 b0];
+  destruct (maxrow <? h) eqn:E2; intros H; injection H as <- <- <- <-; rewrite <- Eh;
   (split; [f_equal; lia|repeat split; lia]).
 Qed.
-
-Lemma overlay_box c maxcol maxrow pw ph fr l r t b :
+Lemma overlay_box c maxcol maxrow pw ph (fr : Z -> Z) l r t b :
   p_wt (o_pad c) <> WPack -> p_wt (o_pad c) <> WClip -> f_ht (o_fill c) <> WPack ->
   overlay_padding_filler c maxcol maxrow pw ph fr = Ok (l, r, t, b) ->
   let W := clrp_width maxcol (p_wt (o_pad c)) (p_wa (o_pad c)) (p_minw (o_pad c)) (p_left (o_pad c)) (p_right (o_pad c)) in
